@@ -956,6 +956,10 @@ class DestHandler:
     def _deferred_lost_segment_handling(self) -> None:
         if not self._params.acked_params.deferred_lost_segment_detection_active:
             return
+        if self._params.completion_disposition == CompletionDisposition.CANCELED:
+            # A fault declared while the PDU of this call was handled cancelled the transaction:
+            # nothing is requested or verified anymore, the cancel condition code must stand.
+            return
         assert self._params.remote_cfg is not None
         assert self._params.fp.file_size_eof is not None
         if (
